@@ -114,3 +114,13 @@ CLAIMS["C06"] = ("other",
     "forced on the Fock backend; post-selected conditional states agree across gaussian/bosonic/fock. F21 found and repaired.",
     "bounded parts not counted as proved; the distributional claim (the draw IS Born distributed) is a statement about the RNG",
     "deductive VCs for unit conversion/storage/collation + bounded stand-in recording the RNG arguments", "DESIGN.md 5/C06")
+CLAIMS["C16"] = ("other",
+    "Proved: BaseGaussianState.reduced_gaussian for a SYMBOLIC number of modes and a mode list of symbolic length (whole result "
+    "mu[modes ++ modes+N], cov[rows, cols]; non-ascending lists rejected; full-state shortcut only for range(N)); mean_photon "
+    "reads exactly the requested mode (symbolic N). At fixed mode sets (6 subsets of a register of symbolic size, reported as "
+    "shape-bounded): parity_expectation and reduced_dm ask for exactly the requested modes, hand only the REDUCED means/covariance "
+    "to numpy.linalg / thewalrus (recording stubs), parity's value is the closed form of the reduced state, reduced_dm takes the "
+    "pure shortcut iff the REDUCED state is pure and returns two indices per mode. Bounded stand-in: cross-method and "
+    "cross-representation numerical identities on correlated 2-3 mode states for every subset. F29, F30, F31 found and repaired.",
+    "thewalrus.quantum functions are recording stubs; numerical agreement of float pipelines is bounded only; sorted() library contract",
+    "deductive VCs over symbolic-size arrays + recording stubs for callee preconditions + bounded numeric stand-in", "DESIGN.md 5/C16")
